@@ -48,8 +48,9 @@ def build(cfg):
     from amaranth_soc import event
     # every second source is obtained the other documented way: from its signature (a component declaring
     # Out(event.Source.Signature(trigger=...)) gets its ports through Signature.create()); both routes must give the same source
-    srcs = [event.Source(trigger=m, path=(f"s{k}",)) if (k + cfg.get("via_signature", 0)) % 2 == 0
-            else event.Source.Signature(trigger=m).create(path=(f"s{k}",)) for k, m in enumerate(cfg["modes"])]
+    T = lambda k, m: event.Source.Trigger(m) if k % 3 == 1 else m            # the mode as a string or as the enum member
+    srcs = [event.Source(trigger=T(k, m), path=(f"s{k}",)) if (k + cfg.get("via_signature", 0)) % 2 == 0
+            else event.Source.Signature(trigger=T(k, m)).create(path=(f"s{k}",)) for k, m in enumerate(cfg["modes"])]
     emap = event.EventMap()
     for k in cfg["order"]:
         emap.add(srcs[k])
